@@ -123,7 +123,7 @@ def _mk_roundtrip(irr: bool) -> None:
         )
         c.ghost("cal", AbsCalG()).arg("rule", rule).arg("date", LocalDateG())
         c.setup = _setup_with("W", "WEEKS", "WY")
-        c.timeout_s = 120
+        c.timeout_s = 200
         c.vc_chunks = 6
         c.requires(lambda a: And(V.ld_y(a.date) > a.cal.min_year + 1, V.ld_y(a.date) < a.cal.max_year - 1))
 
